@@ -1223,10 +1223,11 @@ func TestVerifC10(t *testing.T) {
 		bigKey := []*c10Cfg{c10MkCfg(false, false, "key-first", ""), c10MkCfg(true, false, "key-go", "")}
 		bigLt := []*c10Cfg{c10MkCfg(false, false, "", "lt-first"), c10MkCfg(true, false, "key-go", "lt-go"), c10MkCfg(false, true, "", "")}
 		if th {
-			c10Big(c, "binary", []int{21, 22}, -1, bigPlain)
+			c10Big(c, "binary", []int{21}, -1, bigPlain)
+			c10Big(c, "binary", []int{22}, 9, bigPlain)
 			c10Big(c, "binary", []int{23}, 8, bigPlain)
 			phase("binary")
-			c10Big(c, "binary/key", []int{21}, 6, bigKey)
+			c10Big(c, "binary/key", []int{21}, 5, bigKey)
 			phase("binary/key")
 			c10Big(c, "binary/less-than", []int{21, 22}, 3, bigLt)
 			phase("binary/less-than")
